@@ -281,6 +281,71 @@ def main():
         except Exception as ex:
             out["progs"].append({"n": n, "uses": [], "grad": [], "ok": False, "error": repr(ex), "order": "+".join(kinds)})
         dist("program:full-selection-mix")
+    # programs of a third kind: the same mixtures inside a NESTED differentiation, with cotangents that depend on the
+    # outer variable (every term is squared) and values that share one cotangent object (s = y + w): the gradient seen
+    # under an outer trace, and the second derivative, against forward mode (which accumulates nothing)
+    from autograd import make_jvp as _mj
+    out["nested"] = {"n": 0, "bad": []}
+    for it in range(cfg["n_progs"]):
+        n = rng.choice([3, 4])
+        lab = onp.arange(n)
+        plan = []
+        for _ in range(rng.randint(2, 5)):
+            src = rng.choice(["y", "w", "s", "a"])
+            if rng.random() < 0.5:
+                plan.append((src, None, onp.array([float(rng.randint(-2, 2)) for _ in range(n)])))
+            else:
+                idx = rng.choice([slice(0, 2), slice(None, None, -1), [0, 0, n - 1], onp.array([1, -1]), 1, -2, slice(1, None, 2),
+                                  onp.array([True] + [False] * (n - 2) + [True])])
+                sel = lab[idx]
+                plan.append((src, idx, onp.array([float(rng.randint(-2, 2)) for _ in range(onp.size(sel))]).reshape(onp.shape(sel))))
+        rng.shuffle(plan)
+        pos_ss = rng.randint(0, len(plan))
+
+        def fq(a, plan=plan, pos_ss=pos_ss):
+            y = a * 2.0
+            w = a * 3.0
+            s_ = y + w
+            env = {"y": y, "w": w, "s": s_, "a": a}
+            tot = 0.0
+            for k_, (src, idx, wt) in enumerate(plan):
+                if k_ == pos_ss:
+                    tot = tot + anp.sum(s_ * s_)        # the shared dense cotangent, at a random place in the order
+                v = env[src] if idx is None else env[src][idx]
+                tot = tot + anp.sum(wt * v) ** 2
+            if pos_ss >= len(plan):
+                tot = tot + anp.sum(s_ * s_)
+            return tot
+        x0 = onp.array([float(rng.randint(-2, 2)) for _ in range(n)])
+        vdir = onp.array([float(rng.randint(-2, 2)) for _ in range(n)])
+        out["nested"]["n"] += 1
+        dist("program:nested-mix")
+        desc = "plan=%s x=%s" % ([(p[0], str(p[1])) for p in plan], x0.tolist())
+        try:
+            g_plain = onp.asarray(grad(fq)(x0))
+            g_fwd = onp.array([float(_mj(fq)(x0)(e)[1]) for e in onp.eye(n)])
+            seen = []
+
+            def outer(x):
+                g = grad(fq)(x)
+                seen.append(onp.array(getattr(g, "_value", g)))
+                return anp.sum(g * vdir)
+            hv_rr = onp.asarray(grad(outer)(x0))
+            hv_fr = onp.asarray(_mj(grad(fq))(x0)(vdir)[1])
+            hv_ff = onp.array([float(_mj(lambda z: _mj(fq)(z)(vdir)[1])(x0)(e)[1]) for e in onp.eye(n)])
+            probs = []
+            if not onp.all(g_plain == g_fwd):
+                probs.append("gradient %s, forward mode gives %s" % (g_plain.tolist(), g_fwd.tolist()))
+            if not onp.all(onp.asarray(seen[0]) == g_fwd):
+                probs.append("gradient computed under an outer trace is %s, on its own %s" % (onp.asarray(seen[0]).tolist(), g_fwd.tolist()))
+            if not onp.all(hv_rr == hv_ff):
+                probs.append("reverse-over-reverse H v = %s, forward-over-forward %s" % (hv_rr.tolist(), hv_ff.tolist()))
+            if not onp.all(hv_fr == hv_ff):
+                probs.append("forward-over-reverse H v = %s, forward-over-forward %s" % (hv_fr.tolist(), hv_ff.tolist()))
+            if probs:
+                out["nested"]["bad"].append({"program": desc, "problems": probs, "ok": False})
+        except Exception as ex:
+            out["nested"]["bad"].append({"program": desc, "problems": ["raised %r" % (ex,)], "ok": False})
     print(json.dumps(out))
 
 
